@@ -295,6 +295,36 @@ func cmdMsg(o opts) {
 		sh := shapes(d.defs[di])
 		zero := zeroVals(p)
 		if mode == "c03" {
+			// every field filled at once with distinct non-zero bytes (strings at full length): neighbours must not
+			// bleed into each other when the payload is read back
+			{
+				vals := cloneVals(zero)
+				for i, s := range sh {
+					if s.isStr {
+						vals[i][0] = distinctBytes(0x41+i, s.strlen)
+					} else {
+						for k := range vals[i] {
+							vals[i][k] = distinctBytes(0x11*(1+(i+k)%13)+k, s.gosize)
+						}
+					}
+				}
+				d.enc(di, vals, true, "full")
+				d.enc(di, vals, false, "full")
+				// same with small numbers (zero high bytes) behind full-length strings: a string must end at its
+				// declared length even when the next zero byte lies further on
+				v2 := cloneVals(vals)
+				for i, s := range sh {
+					if !s.isStr {
+						for k := range v2[i] {
+							b := make(B, s.gosize)
+							b[0] = byte(1 + (i*7+k)%200)
+							v2[i][k] = b
+						}
+					}
+				}
+				d.enc(di, v2, true, "full_small")
+				d.enc(di, v2, false, "full_small")
+			}
 			// one field (and array element) at a time, distinct non-zero bytes; others zero
 			for i, s := range sh {
 				var elems []int
